@@ -20,6 +20,12 @@ TEMPLATES = [
     (("a", "i"), ("a", "b", "i", "j"), ("b", "j")),
     (("a",), ("a", "i"), ("a", "i", "j"), ("i", "j")),
     (("a", "b"), ("b", "i"), ("b", "c", "i"), ("c", "i", "j")),
+    # components that stay separate until a late factor bridges three or more of them at once
+    (("a",), ("b",), ("c",), ("a", "b", "c")),
+    (("a", "i"), ("b", "i"), ("c", "i"), ("a", "b", "c", "i")),
+    (("a",), ("b",), ("c",), ("d",), ("b", "c", "d"), ("a", "d")),
+    (("a", "i"), ("b",), ("c", "i", "j"), ("d", "j"), ("a", "b", "c", "i")),
+    (("c",), ("a",), ("b", "i"), ("a", "b", "c", "i"), ("a", "i")),
 ]
 
 
@@ -38,9 +44,11 @@ def case_strategy(tier):
                 names.append(draw(st.sampled_from(vs)))
             names = draw(st.permutations(names)) if names else []
             factors.append(list(names))
-        if R(0, 9) < 2:
-            # structural templates: crossing / nested plates (rare under uniform generation)
+        if R(0, 9) < 3:
+            # structural templates: crossing / nested plates, late bridges (rare under uniform generation)
             factors = [list(f) for f in draw(st.sampled_from(TEMPLATES))]
+            if R(0, 1):
+                factors = [list(draw(st.permutations(f))) for f in factors]
             vs = sorted({n for f in factors for n in f if n in VARS})
             pls = sorted({n for f in factors for n in f if n in PLATES})
             sizes = {n: R(1, 2) for n in vs + pls}
@@ -51,10 +59,26 @@ def case_strategy(tier):
         else:
             scales = {p: R(2, 3) for p in pls if p in elim}
         algo = draw(st.sampled_from(ALGOS))
+        sem = draw(st.sampled_from(SEMIRINGS))
+        real = R(0, 4) == 0
+        # keep the case inside what the chosen algorithm accepts (otherwise it is only counted as a decline)
+        if algo in ("einsum", "naive_einsum"):
+            scales, real = {}, False
+            if sem not in EINSUM_BACKEND:
+                sem = draw(st.sampled_from(sorted(EINSUM_BACKEND)))
+        elif algo in ("modified", "dynamic", "two_calls"):
+            scales = {}
+        if R(0, 9) < 9:
+            # a kept variable inside an eliminated plate has no defined meaning: eliminate it as well
+            epl = {p for p in pls if p in elim}
+            for v in vs:
+                fs_v = [f for f in factors if v in f]
+                if v not in elim and fs_v and set.intersection(*[set(f) & epl for f in fs_v]):
+                    elim = elim + [v]
         split = [n for n in elim if draw(st.booleans())]
         return dict(
-            sem=draw(st.sampled_from(SEMIRINGS)), sizes=sizes, plates=pls, factors=factors, elim=elim, scales=scales,
-            algo=algo, split=split, real=R(0, 4) == 0, pedantic=R(0, 5) == 0, a=R(0, 9973), b=R(1, 97),
+            sem=sem, sizes=sizes, plates=pls, factors=factors, elim=elim, scales=scales,
+            algo=algo, split=split, real=real, pedantic=R(0, 5) == 0, a=R(0, 9973), b=R(1, 97),
         )
 
     return _s()
@@ -166,7 +190,7 @@ class C09(Prop):
         "graphs with a kept variable inside an eliminated plate have no defined value (upstream marks it 'unclear semantics') and are only used with pedantic=True, which must raise",
         "integer plate scales only (exactly representable as plate replication)",
     )
-    cases = {"quick": 1600, "thorough": 60000}
+    cases = {"quick": 3200, "thorough": 60000}
 
     def strategy(self, tier):
         return case_strategy(tier)
